@@ -399,4 +399,59 @@ example : Dead (Spec.run 3600 3600 (Spec.empty : Spec.State Nat Nat Nat) (demo.t
   simp at h
   omega
 
+/-! ## The configuration denoted by set-up code
+
+`build` runs the builder methods / `with_config` line by line (`Model/Auth.lean`); `Spec.effective` says what the
+set-up code denotes, reading it from the end (last `with_config`; last call per field on that value; defaults
+otherwise). They agree for every list of calls, so the refinement above, which holds for EVERY `cfg`, applies with
+`dl := (Spec.effective …).lifetime`, `rl := (Spec.effective …).refreshLifetime`. -/
+section
+variable {Pep : Type}
+
+def Spec.Eff.toConfig (e : Spec.Eff Pep) : Config Pep :=
+  { defaultLifetime := e.lifetime, defaultRefreshLifetime := e.refreshLifetime, pepper := e.pepper }
+
+set_option linter.unusedSimpArgs false in
+theorem build_back (np : Pep) : ∀ back : List (BCall Pep),
+    (back.reverse.foldl (bstep np) { cfg := Config.dflt np, prov := Config.dflt np }).cfg
+        = (Spec.fieldsOf np back).toConfig ∧
+    (back.reverse.foldl (bstep np) { cfg := Config.dflt np, prov := Config.dflt np }).prov
+        = (Spec.effectiveBack np back).toConfig
+  | [] => by
+    simp [Spec.fieldsOf, Spec.effectiveBack, Spec.Eff.toConfig, Config.dflt]
+  | c :: r => by
+    obtain ⟨h1, h2⟩ := build_back np r
+    rw [List.reverse_cons, List.foldl_append]
+    generalize List.foldl (bstep np) _ r.reverse = s at h1 h2 ⊢
+    obtain ⟨sc, sp⟩ := s
+    simp only at h1 h2
+    subst h1 h2
+    cases c <;>
+      simp [bstep, Spec.fieldsOf, Spec.effectiveBack, Spec.Eff.toConfig, Spec.installs, Spec.startsConfig,
+        Spec.asLifetime, Spec.asRefresh, Spec.asPepper, Config.withDefaultLifetime,
+        Config.withDefaultRefreshLifetime, Config.withPepper, Config.dflt, List.takeWhile, List.dropWhile,
+        List.findSome?]
+
+/-- The builder, run call by call, yields exactly the configuration the set-up code denotes. -/
+theorem build_eq_effective (np : Pep) (calls : List (BCall Pep)) :
+    build np calls = (Spec.effective np calls).toConfig := by
+  have := (build_back np calls.reverse).2
+  rw [List.reverse_reverse] at this
+  exact this
+
+/-- The order of calls of DIFFERENT builder methods is irrelevant; of the same method the last one wins. -/
+example (np : Pep) (a b a' : Nat) (p : Pep) :
+    build np [.refreshLifetime b, .defaultLifetime a, .pepper p, .withConfig]
+      = build np [.defaultLifetime a', .pepper p, .defaultLifetime a, .refreshLifetime b, .withConfig] := rfl
+
+example : build 0 [.refreshLifetime 7, .defaultLifetime 5, .withConfig] =
+    ({ defaultLifetime := 5, defaultRefreshLifetime := 7, pepper := 0 } : Config Nat) := rfl
+
+/-- A configuration that is never installed, or is replaced by a later `with_config`, has no effect. -/
+example : build 0 [.defaultLifetime 5, .pepper 2] = Config.dflt 0 := rfl
+example : build 0 [.defaultLifetime 5, .pepper 2, .withConfig, .newConfig, .refreshLifetime 7, .withConfig] =
+    ({ defaultLifetime := 3600, defaultRefreshLifetime := 7, pepper := 0 } : Config Nat) := rfl
+
+end
+
 end Humphrey.Auth
